@@ -173,6 +173,8 @@ def specTable : List (String × List Signature) := [
                  [⟨"x", .posOnly, none⟩, ⟨"base", .posOrKw, some "10"⟩]]),
   ("len",       [[⟨"obj", .posOnly, none⟩]]),
   ("map",       [[⟨"function", .posOnly, none⟩, ⟨"iterable", .posOnly, none⟩, ⟨"iterables", .varPos, none⟩]]),
+  ("next",      [[⟨"iterator", .posOnly, none⟩],
+                 [⟨"iterator", .posOnly, none⟩, ⟨"default", .posOnly, none⟩]]),
   ("print",     [[⟨"objects", .varPos, none⟩, ⟨"sep", .kwOnly, some "' '"⟩, ⟨"end", .kwOnly, some "'\\n'"⟩,
                   ⟨"file", .kwOnly, some "None"⟩, ⟨"flush", .kwOnly, some "False"⟩]]),
   ("range",     [[⟨"stop", .posOnly, none⟩],
@@ -332,6 +334,118 @@ def forward (truthy : α → Bool) (b : String) (c : CallShape α) : Except FwdE
     | none => .error (.model "overload not defined")
     | some ov => callOverload truthy ov c
 
+/-- Keys of `BUILTIN_FUNCTIONS_MAP`. -/
+def mappedBuiltins : List String := builtinFunctionsMap.map (·.1)
+
+/-- The overload registered for `b` in `BUILTIN_FUNCTIONS_MAP`, called directly — whether or not `b`
+is (yet) in `SUPPORTED_BUILTINS` (`next` is mapped but not supported). -/
+def callMapped (truthy : α → Bool) (b : String) (c : CallShape α) : Except FwdErr (Fwd α) :=
+  match builtinFunctionsMap.lookup b with
+  | none => .error (.model "not in BUILTIN_FUNCTIONS_MAP")
+  | some on =>
+    match findOverload on with
+    | none => .error (.model "overload not defined")
+    | some ov => callOverload truthy ov c
+
+/-! ### Registry dispatch (staged values)
+
+A registry maps types to an override; `staged reg v = some o` says the value `v` is an instance of a
+type registered in registry `reg` with override `o`.  Literals written in the library source are
+never staged.  An overload takes its `_py_*` default path unless the registry lookup it performs
+finds an override. -/
+
+abbrev Staging (α : Type) := String → α → Option Nat
+
+def stagedV (staged : Staging α) (reg : String) : Val α → Option Nat
+  | .arg a => staged reg a
+  | .const _ => none
+
+/-- `zip_`/`map_`: the override common to every element, if every element has one and they agree. -/
+def commonOverride (staged : Staging α) (reg : String) : List (Val α) → Option Nat
+  | [] => none
+  | v :: vs => match stagedV staged reg v with
+    | none => none
+    | some o => if vs.all (fun w => stagedV staged reg w == some o) then some o else none
+
+/-- Which implementation an overload dispatches to: `some none` = its `_py_*` helper,
+`some (some o)` = override `o`, `none` = the extracted tables are inconsistent. -/
+def dispatchOf (staged : Staging α) (ov : Overload) (env : Env α) : Option (Option Nat) :=
+  match ov.dispatch with
+  | .none => some none
+  | .single reg p _ => (lookupVal env p).map (stagedV staged reg)
+  | .firstOf reg p =>
+    match env.lookup p with
+    | some (.star vs) => some ((vs.filterMap (stagedV staged reg)).head?)
+    | _ => none
+  | .allSame reg p =>
+    match env.lookup p with
+    | some (.star vs) => some (commonOverride staged reg vs)
+    | _ => none
+  | .unresolved => none
+
+/-- The call an override receives (`single`: the extracted call; loops: the overload's final call). -/
+def overrideCall (ov : Overload) : CallExpr :=
+  match ov.dispatch with
+  | .single _ _ ce => ce
+  | _ => ov.call
+
+inductive Routed (α : Type) where
+  | py (f : Fwd α)                                  -- default path: the `_py_*` helper and from there the builtin
+  | override (o : Nat) (call : CallShape α)         -- a registered override was called instead
+  deriving DecidableEq, Repr
+
+/-- Calling an overload with registries that may have entries. -/
+def callOverloadS (staged : Staging α) (truthy : α → Bool) (ov : Overload) (c : CallShape α) :
+    Except FwdErr (Routed α) :=
+  match bind ov.params c with
+  | .error e => .error (.bind e)
+  | .ok env =>
+    if !kwAllowed ov env then .error .valueError else
+    match dispatchOf staged ov env with
+    | none => .error (.model "dispatch")
+    | some (some o) =>
+      (match evalCall env (overrideCall ov) with
+       | some c1 => .ok (.override o c1)
+       | none => .error (.model "override call"))
+    | some none => (callOverload truthy ov c).map .py
+
+def callMappedS (staged : Staging α) (truthy : α → Bool) (b : String) (c : CallShape α) :
+    Except FwdErr (Routed α) :=
+  match builtinFunctionsMap.lookup b with
+  | none => .error (.model "not in BUILTIN_FUNCTIONS_MAP")
+  | some on =>
+    match findOverload on with
+    | none => .error (.model "overload not defined")
+    | some ov => callOverloadS staged truthy ov c
+
+/-- No argument of the call is a staged value, for any registry. -/
+def unstaged (staged : Staging α) (c : CallShape α) : Prop :=
+  ∀ reg a, (Val.arg a ∈ c.pos ∨ ∃ k, (k, Val.arg a) ∈ c.kw) → staged reg a = none
+
+/-! ### Provenance: what the library does with the argument values -/
+
+def valuesOf (c : CallShape α) : List (Val α) := c.pos ++ c.kw.map (·.2)
+
+def Bound.vals : Bound α → List (Val α)
+  | .val v => [v]
+  | .star vs => vs
+  | .dstar kvs => kvs.map (·.2)
+
+def envVals (e : Env α) : List (Val α) := e.flatMap (fun x => x.2.vals)
+
+def isConst : Val α → Bool
+  | .const _ => true
+  | .arg _ => false
+
+/-- The argument values whose truth value the helper tests while choosing its branch. -/
+def truthTested (truthy : α → Bool) (env : Env α) : List Branch → List (Val α)
+  | [] => []
+  | br :: rest =>
+    let here := br.guards.filterMap (fun g => match g with | .truthy p => lookupVal env p | _ => none)
+    match guardsHold truthy env br.guards with
+    | some false => here ++ truthTested truthy env rest
+    | _ => here
+
 /-- All values come from the caller (user code cannot name the sentinel). -/
 def userShape (c : CallShape α) : Bool :=
   c.pos.all (fun v => match v with | .arg _ => true | .const _ => false)
@@ -399,6 +513,37 @@ def bodyHidesName (name : String) (id : Nat) (needed : List String) (stack : Lis
     | some a, some b => !lookupAgree a b needed
     | _, _ => false
   | _, _ => false
+
+/-! ### Frame discipline of generated code
+
+One activation of a converted function, seen from a call site at nesting depth `d` inside
+functionalised bodies: every functionalised body (if/else/loop body, loop test, conditional-expression
+or and/or operand) adds ONE generated frame that holds the scope object — it references `fscope`
+itself or encloses a function that does, so the cell is among its free variables — plus the frames of
+the operator that calls it (`if_stmt`, `_py_if_stmt`, `for_stmt`, …), which do not.  All generated
+frames run code of the one generated module, so they share its globals `g`.  The frames are listed
+from the innermost generated frame outwards, ending with the converted user function's frame `u`. -/
+inductive GenStack (name : String) (id g : Nat) : Nat → List Frame → Frame → Prop
+  | user (u : Frame) (hu : u.holds name id = true) (hg : u.globals = g) : GenStack name id g 0 [u] u
+  | body (d : Nat) (b : Frame) (ops rest : List Frame) (u : Frame)
+      (hb : b.holds name id = true) (hg : b.globals = g)
+      (hops : ∀ f ∈ ops, f.holds name id = false)
+      (hrest : GenStack name id g d rest u) : GenStack name id g (d + 1) (b :: (ops ++ rest)) u
+
+/-- Frames of a recorded stack that hold the scope object. -/
+def holders (name : String) (id : Nat) (stack : List Frame) : List Frame :=
+  stack.filter (fun f => f.holds name id)
+
+/-- Checker run on recorded real stacks: the nesting depth the stack exhibits (`none` = nobody holds
+the scope object) … -/
+def genDepth (name : String) (id : Nat) (stack : List Frame) : Option Nat :=
+  match (holders name id stack).length with
+  | 0 => none
+  | n + 1 => some n
+
+/-- … and whether every holder runs in the globals `g`. -/
+def genGlobalsOk (name : String) (id g : Nat) (stack : List Frame) : Bool :=
+  (holders name id stack).all (fun f => f.globals == g)
 
 /-- `innermost=` used by the wrapper of a context-sensitive builtin (from the generated table). -/
 def innermostOf (b : String) : Option Bool := frameSearchInnermost.lookup (b ++ "_in_original_context")
